@@ -202,6 +202,11 @@ def prove(ctx, propfile_rel, extra_targets=(), only=None):
         ctx.oblige("build:" + target, "proof", False, where + "\n" + out[-1500:])
         for n in names:
             ctx.oblige("theorem:" + n, "proof", False, "development does not build")
+        # the model-level targets (case evaluators) do not depend on the proofs: build them on their own so that the search
+        # for a failing input still runs
+        if extra_targets:
+            rc2, out2 = coq_make(list(extra_targets))
+            ctx.oblige("build:model-level targets after a proof failure", "build", rc2 == 0, out2[-800:])
         return False
     ctx.oblige("build:" + target, "proof", True)
     hits = forbidden_scan()
@@ -401,12 +406,45 @@ def run_cases(ctx, name, header, case_terms, per_shard=400, timeout=900, fn="che
             err = absorb(k, rc, out)
             if err:
                 retry.append(k)
-    # a shard that was killed or timed out under load gets one more chance, on its own
-    for k in retry:
-        rc, out = one(files[k])
-        err = absorb(k, rc, out)
-        if err:
-            broken.append(err)
+    # a shard that was killed or timed out is split: its cases are re-evaluated in smaller and smaller pieces (in parallel),
+    # so that one slow case costs one timeout and is NAMED, instead of taking its whole shard down
+    def write_piece(k, lo, hi, tag):
+        body = header + "\nDefinition cases := [\n" + ";\n".join(shards[k][lo:hi]) + "\n].\n"
+        body += ("Definition res := Eval vm_compute in (map (fun c => %s c) cases).\n" % fn)
+        body += "Definition bad := Eval vm_compute in (filter (fun p => negb (N.eqb (snd p) 0)) " \
+                "(combine (map N.of_nat (seq 0 (length res))) res)).\n"
+        body += 'Check "BEGIN-BAD"%string.\nPrint bad.\nCheck "END-BAD"%string.\n'
+        f = os.path.join(d, "cases_%d_%s.v" % (k, tag))
+        open(f, "w").write(body)
+        return f
+
+    pieces = [(k, 0, len(shards[k])) for k in retry]
+    rounds = 0
+    while pieces and rounds < 8:
+        rounds += 1
+        nxt = []
+        split = []
+        for (k, lo, hi) in pieces:
+            n = hi - lo
+            if n <= 1 or rounds == 1 and n <= 4:
+                split.append((k, lo, hi))
+            else:
+                step = max(1, (n + 3) // 4)
+                split += [(k, x, min(hi, x + step)) for x in range(lo, hi, step)]
+        fs = [write_piece(k, lo, hi, "%d_%d" % (lo, hi)) for (k, lo, hi) in split]
+        with ThreadPoolExecutor(NCPU) as ex:
+            for (k, lo, hi), (rc, out) in zip(split, ex.map(one, fs)):
+                m = re.search(r'"BEGIN-BAD".*?bad\s*=\s*(.*?):\s*list \(N \* N\)', out, flags=re.S) if rc == 0 else None
+                if m:
+                    for a_, b_ in re.findall(r"\(\s*(\d+)(?:%N)?\s*,\s*(\d+)(?:%N)?\s*\)", m.group(1)):
+                        bad.append((k * per_shard + lo + int(a_), int(b_)))
+                elif hi - lo <= 1:
+                    broken.append("case %d (shard %d): %s" % (k * per_shard + lo, k, out[-300:]))
+                else:
+                    nxt.append((k, lo, hi))
+        pieces = nxt
+    for (k, lo, hi) in pieces:
+        broken.append("cases %d..%d (shard %d) could not be evaluated" % (k * per_shard + lo, k * per_shard + hi, k))
     ctx.oblige("cases-evaluate:" + name, "correspondence", not broken, "\n".join(broken)[:2000])
     return bad
 
